@@ -39,6 +39,7 @@ Record case := mkCase {
   cv : cval;            (* Configure.Get(key): VNull = nil *)
   ctext : bytes;        (* literal: the tag text (value part and arguments) *)
   cT : ftype;
+  cfix : bool;          (* the tree splices float64 in plain digits (D-C17g), read off the running code *)
   o_prefix : obs;
   o_value : obs;
   o_prop : obs
@@ -100,16 +101,17 @@ Definition model_prefix (c : case) : res fval := bind_prefix_r (creq c) (cv c) (
 Definition value_tag (c : case) : bytes :=
   match ckind c with O => ph (ckey c) ++ args_of c | _ => ctext c end.
 Definition model_value (c : case) : option (res fval) :=
-  bind_tag_value (cfg_case c) (creq c) (tag_value_part (value_tag c)) (cT c).
+  bind_tag_value (cfix c) (cfg_case c) (creq c) (tag_value_part (value_tag c)) (cT c).
 Definition model_prop (c : case) : option (res fval) :=
-  bind_prop (cfg_case c) (creq c) (ckey c ++ args_of c) (cT c).
+  bind_prop (cfix c) (cfg_case c) (creq c) (ckey c ++ args_of c) (cT c).
 
 (* the text the binding stage of the value route sees *)
 Definition value_text (c : case) : option bytes :=
   let t := tag_value_part (value_tag c) in
   match find_first b_dollar t with
   | None => Some t
-  | Some _ => match quote_stage (cfg_case c) (Some repo_budget) O t with Done x => Some x | _ => None end
+  | Some _ => match replace_all_content b_dollar (resolve_fx (cfix c) (cfg_case c)) (Some repo_budget) O t with
+              | Done x => Some x | _ => None end
   end.
 
 (* ---- where the model is claimed faithful -------------------------------------------------------- *)
@@ -241,14 +243,14 @@ Definition kf_class (c : case) : nat :=
   match ckind c with
   | O =>
     let v := cv c in
-    let placeholder := match format_any v with Ok t => has_placeholder t | _ => false end in
+    let placeholder := match format_cfg (cfix c) v with Ok t => has_placeholder t | _ => false end in
     match v with
     | VStr [] => 8
     | VStr s => match text_class s with
                 | O => if placeholder then 9 else 0
                 | k => k
                 end
-    | VDec m e => if dec_eform m e then 7 else 0
+    | VDec m e => if dec_eform m e && negb (cfix c) then 7 else 0
     | _ =>
       if has_big_int v then 5
       else if int_reaches_any (cT c) v then 6
@@ -283,3 +285,24 @@ Definition count_nontrivial (cs : list case) : list nat :=
   [length (filter nontrivial cs)].
 Definition unmodelled_ids (cs : list case) : list nat :=
   map cid (filter (fun c => negb (prefix_modelled c && value_modelled c)) cs).
+
+(* coverage of the theorems' domains by the generated cases: key cases inside [safe] with an inert text
+   (c17_paths_agree_key applies), and key cases whose value already has the field's type (c17_prefix_exact, embed) *)
+Definition in_safe (c : case) : bool :=
+  match ckind c with
+  | O => creq c && safe (cfix c) (cv c) (cT c) &&
+         match format_cfg (cfix c) (cv c) with Ok t => inert t | _ => false end
+  | _ => false
+  end.
+Definition in_embed (c : case) : bool :=
+  match ckind c with
+  | O => match embed (cT c) (cv c) with Some _ => true | None => false end
+  | _ => false
+  end.
+(* the theorem's prediction, checked on the implementation: inside [safe] the three routes bound the same field *)
+Definition safe_agrees (c : case) : bool :=
+  if in_safe c then obs_eqb (o_prefix c) (o_value c) && obs_eqb (o_value c) (o_prop c) else true.
+Definition domain_counts (cs : list case) : list nat :=
+  [length (filter in_safe cs); length (filter in_embed cs);
+   length (filter (fun c => in_safe c && is_ok (o_prefix c)) cs);
+   length (filter (fun c => negb (safe_agrees c)) cs)].
